@@ -300,7 +300,7 @@ func (s *Sys) doCall(ctx context.Context, name string) error {
 			return s.V1.Stop(ctx, PipelineID, name == "force")
 		}
 		return s.V2.Stop(ctx, PipelineID, name == "force")
-	case "stopwait":
+	case "stopwait", "stopwaitd":
 		if s.V1 != nil {
 			return s.V1.StopAndWait(ctx, PipelineID)
 		}
@@ -330,7 +330,11 @@ func (s *Sys) doCall(ctx context.Context, name string) error {
 
 // Call issues a control call in its own goroutine; the returned channel is closed when the
 // call returned (its "ret" event is in the log by then).
-func (s *Sys) Call(name string) (int, <-chan struct{}) {
+func (s *Sys) Call(name string) (int, <-chan struct{}) { return s.CallCtx(name, 0) }
+
+// CallCtx is Call with a context deadline (0 = none). "stopwaitd" is StopAndWait under that deadline;
+// it is logged under its own name so that it is not taken for the stop whose return is judged.
+func (s *Sys) CallCtx(name string, deadline time.Duration) (int, <-chan struct{}) {
 	s.mu.Lock()
 	s.nextCall++
 	id := s.nextCall
@@ -347,7 +351,13 @@ func (s *Sys) Call(name string) (int, <-chan struct{}) {
 					s.W.Log(Ev{K: "panic", X: name, N: id, A: fmt.Sprint(r)})
 				}
 			}()
-			err = s.doCall(context.Background(), name)
+			ctx := context.Background()
+			if deadline > 0 {
+				var cancel context.CancelFunc
+				ctx, cancel = context.WithTimeout(ctx, deadline)
+				defer cancel()
+			}
+			err = s.doCall(ctx, name)
 		}()
 		ev := Ev{K: "ret", X: name, A: Class(err), N: id}
 		if name == "stopwait" {
